@@ -473,7 +473,11 @@ fn load_toplevel_items_(
                     // import. We don't need to load the namespace
                     // again, but we do need to add the values to the
                     // current namespace.
-                    let imported_ns = env.get_namespace(&abs_path).unwrap();
+                    let Some(imported_ns) = env.get_namespace(&abs_path) else {
+                        // The file could not be read the first time it
+                        // was imported, which has already been reported.
+                        continue;
+                    };
                     insert_imported_namespace(
                         import_info.namespace_sym.as_ref(),
                         Rc::clone(&namespace),
